@@ -1,0 +1,197 @@
+//go:build verif
+// +build verif
+
+package netceptor
+
+// White-box access for the verification harness in /verif (build tag "verif").
+// Add-only: every function here is a thin wrapper around an unexported function or field of
+// this package and none of them is referenced by the normal build.
+
+import (
+	"context"
+	"sync"
+	"time"
+)
+
+// VerifRoutingUpdate mirrors the unexported routingUpdate.
+type VerifRoutingUpdate struct {
+	NodeID             string
+	UpdateID           string
+	UpdateEpoch        uint64
+	UpdateSequence     uint64
+	Connections        map[string]float64
+	ForwardingNode     string
+	SuspectedDuplicate uint64
+}
+
+// VerifAddConn registers a fake established connection whose outgoing messages are
+// collected in the returned buffered channel.
+func (s *Netceptor) VerifAddConn(id string, cost float64, buffer int) (chan []byte, context.CancelFunc) {
+	ci := &connInfo{
+		ReadChan:         make(chan []byte),
+		WriteChan:        make(chan []byte, buffer),
+		Cost:             cost,
+		lastReceivedLock: &sync.RWMutex{},
+		lastReceivedData: time.Now(),
+		logger:           s.Logger,
+	}
+	ci.Context, ci.CancelFunc = context.WithCancel(s.context)
+	s.connLock.Lock()
+	s.connections[id] = ci
+	s.connLock.Unlock()
+
+	return ci.WriteChan, ci.CancelFunc
+}
+
+// VerifRemoveConnection calls removeConnection.
+func (s *Netceptor) VerifRemoveConnection(id string) { s.removeConnection(id) }
+
+// VerifHandleRoutingUpdate calls handleRoutingUpdate.
+func (s *Netceptor) VerifHandleRoutingUpdate(u VerifRoutingUpdate, recvConn string) {
+	conns := make(map[string]float64, len(u.Connections))
+	for k, v := range u.Connections {
+		conns[k] = v
+	}
+	s.handleRoutingUpdate(&routingUpdate{
+		NodeID: u.NodeID, UpdateID: u.UpdateID, UpdateEpoch: u.UpdateEpoch, UpdateSequence: u.UpdateSequence,
+		Connections: conns, ForwardingNode: u.ForwardingNode, SuspectedDuplicate: u.SuspectedDuplicate,
+	}, recvConn)
+}
+
+// VerifHandleServiceAdvertisement calls handleServiceAdvertisement.
+func (s *Netceptor) VerifHandleServiceAdvertisement(data []byte, from string) error {
+	return s.handleServiceAdvertisement(data, from)
+}
+
+// VerifKnownNodeInfo returns a copy of knownNodeInfo as origin -> {epoch, sequence}.
+func (s *Netceptor) VerifKnownNodeInfo() map[string][2]uint64 {
+	s.knownNodeLock.RLock()
+	defer s.knownNodeLock.RUnlock()
+	out := make(map[string][2]uint64, len(s.knownNodeInfo))
+	for k, v := range s.knownNodeInfo {
+		out[k] = [2]uint64{v.Epoch, v.Sequence}
+	}
+
+	return out
+}
+
+// VerifSeenUpdates returns the IDs in seenUpdates.
+func (s *Netceptor) VerifSeenUpdates() []string {
+	s.seenUpdatesLock.RLock()
+	defer s.seenUpdatesLock.RUnlock()
+	out := make([]string, 0, len(s.seenUpdates))
+	for k := range s.seenUpdates {
+		out = append(out, k)
+	}
+
+	return out
+}
+
+// VerifExpireSeenUpdate forgets one update ID (what expireSeenUpdates does when it is old enough).
+func (s *Netceptor) VerifExpireSeenUpdate(id string) {
+	s.seenUpdatesLock.Lock()
+	delete(s.seenUpdates, id)
+	s.seenUpdatesLock.Unlock()
+}
+
+// VerifEpoch returns the node's start epoch.
+func (s *Netceptor) VerifEpoch() uint64 { return s.epoch }
+
+// VerifSetEpoch overrides the node's start epoch (to make histories reproducible).
+func (s *Netceptor) VerifSetEpoch(e uint64) { s.epoch = e }
+
+// VerifSequence returns the node's update sequence counter.
+func (s *Netceptor) VerifSequence() uint64 {
+	s.sequenceLock.RLock()
+	defer s.sequenceLock.RUnlock()
+
+	return s.sequence
+}
+
+// VerifSetKnownConnectionCosts replaces knownConnectionCosts.
+func (s *Netceptor) VerifSetKnownConnectionCosts(g map[string]map[string]float64) {
+	s.knownNodeLock.Lock()
+	defer s.knownNodeLock.Unlock()
+	s.knownConnectionCosts = make(map[string]map[string]float64, len(g))
+	for k, v := range g {
+		s.knownConnectionCosts[k] = make(map[string]float64, len(v))
+		for k2, v2 := range v {
+			s.knownConnectionCosts[k][k2] = v2
+		}
+	}
+}
+
+// VerifUpdateRoutingTable runs updateRoutingTable synchronously.
+func (s *Netceptor) VerifUpdateRoutingTable() { s.updateRoutingTable() }
+
+// VerifSetRoutingTable replaces the routing table (adversarial tables).
+func (s *Netceptor) VerifSetRoutingTable(t map[string]string) {
+	s.routingTableLock.Lock()
+	defer s.routingTableLock.Unlock()
+	s.routingTable = make(map[string]string, len(t))
+	for k, v := range t {
+		s.routingTable[k] = v
+	}
+}
+
+// VerifRoutingPathCosts returns a copy of routingPathCosts.
+func (s *Netceptor) VerifRoutingPathCosts() map[string]float64 {
+	s.routingTableLock.RLock()
+	defer s.routingTableLock.RUnlock()
+	out := make(map[string]float64, len(s.routingPathCosts))
+	for k, v := range s.routingPathCosts {
+		out[k] = v
+	}
+
+	return out
+}
+
+// VerifTranslateDataToMessage calls translateDataToMessage.
+func (s *Netceptor) VerifTranslateDataToMessage(data []byte) (*MessageData, error) {
+	return s.translateDataToMessage(data)
+}
+
+// VerifTranslateDataFromMessage calls translateDataFromMessage.
+func (s *Netceptor) VerifTranslateDataFromMessage(md *MessageData) ([]byte, error) {
+	return s.translateDataFromMessage(md)
+}
+
+// VerifHandleMessageData calls handleMessageData.
+func (s *Netceptor) VerifHandleMessageData(md *MessageData) error { return s.handleMessageData(md) }
+
+// VerifServiceAds returns node -> service -> (time in unix nanoseconds, connection type, tags).
+func (s *Netceptor) VerifServiceAds() map[string]map[string]ServiceAdvertisement {
+	s.serviceAdsLock.RLock()
+	defer s.serviceAdsLock.RUnlock()
+	out := make(map[string]map[string]ServiceAdvertisement, len(s.serviceAdsReceived))
+	for n, m := range s.serviceAdsReceived {
+		out[n] = make(map[string]ServiceAdvertisement, len(m))
+		for svc, ad := range m {
+			out[n][svc] = *ad
+		}
+	}
+
+	return out
+}
+
+// VerifBackendInfo builds the admission policy normally assembled by AddBackend.
+func VerifBackendInfo(cost float64, nodeCost map[string]float64, allowedPeers []string) *BackendInfo {
+	return &BackendInfo{connectionCost: cost, nodeCost: nodeCost, allowedPeers: allowedPeers}
+}
+
+// VerifRunProtocol runs the protocol loop on a harness-provided session.
+func (s *Netceptor) VerifRunProtocol(ctx context.Context, sess BackendSession, bi *BackendInfo) error {
+	return s.runProtocol(ctx, sess, bi)
+}
+
+// VerifConnectionIDs lists the keys of the connections map.
+func (s *Netceptor) VerifConnectionIDs() []string {
+	s.connLock.RLock()
+	defer s.connLock.RUnlock()
+	out := make([]string, 0, len(s.connections))
+	for k := range s.connections {
+		out = append(out, k)
+	}
+
+	return out
+}
